@@ -1,4 +1,5 @@
 import GoMailModel.Smtp.Send
+import GoMailModel.Proofs.Legal6
 /-
   C03 — The server only ever commits complete messages; IsDelivered tells the truth.
   (First group: what sendSingleMsg reports. The trace-level statement — every end-of-data marker is
@@ -35,5 +36,52 @@ theorem no_error_means_delivered (cfg : SendCfg) (c : Conn) (idx : Nat) (m : Msg
   simp only []
   repeat' split
   all_goals simp
+
+/-! ### trace level: the end-of-data marker is only ever sent behind a complete rendering -/
+
+theorem bad_mono (j : J) (e : Ev) (h : j.bad = true) : (j.step e).bad = true := by
+  unfold J.step
+  split
+  · exact h
+  · cases e <;> simp only [] <;> first
+      | exact h
+      | (rw [onReply_bad]; exact h)
+      | (split <;> first | exact h | (simp [h]; done))
+      | (simp [h]; done)
+
+theorem foldl_bad (b : List Ev) (j : J) (h : (b.foldl J.step j).bad = false) : j.bad = false := by
+  induction b generalizing j with
+  | nil => exact h
+  | cons e rest ih =>
+    have h1 := ih (j.step e) h
+    cases hb : j.bad with
+    | false => rfl
+    | true => rw [bad_mono _ e hb] at h1; cases h1
+
+theorem judge_bad_prefix (a b : List Ev) (h : (judge (a ++ b)).bad = false) : (judge a).bad = false := by
+  unfold judge at h
+  rw [List.foldl_append] at h
+  exact foldl_bad b _ h
+
+/-- **Only complete messages reach end-of-data.** In the trace of DialAndSend - for every configuration,
+    server script, capability list and batch - wherever the end-of-data marker occurs, the reference
+    automaton is in state `full`: DATA was answered 354 and a COMPLETE rendering of the message was
+    handed to the DATA stream since (a failed render never gets there: the connection is dropped
+    instead, so the server cannot commit a fragment). -/
+theorem eod_only_behind_complete_content (cfg : DialCfg) (script : List Act) (caps : List Bytes) (ms : List MsgIn)
+    (pre post : List Ev) (h : (dialAndSend cfg script caps ms).conn.trace = pre ++ .eod :: post) :
+    (judge pre).stopped = true ∨ (judge pre).tx = .full := by
+  have hl := dialAndSend_legal cfg script caps ms
+  unfold Legal at hl
+  rw [h, show pre ++ Ev.eod :: post = (pre ++ [Ev.eod]) ++ post by simp] at hl
+  have h1 := judge_bad_prefix _ _ hl
+  rw [judge_snoc] at h1
+  cases hs : (judge pre).stopped with
+  | true => left; rfl
+  | false =>
+    right
+    simp only [J.step, hs, Bool.false_eq_true, if_false, Bool.or_eq_false_iff] at h1
+    cases htx : (judge pre).tx <;> simp [htx] at h1
+    rfl
 
 end GoMail.Props.C03
